@@ -613,6 +613,33 @@ pub fn check_program(ctx: &Ctx, p: &Prog, rng: &mut Rng, all_mutants: bool) {
             }
         }
     }
+    // an undefined name in an operand that cannot change the value is a reference to an undefined name
+    // all the same: "no symbol ever silently evaluates to zero"
+    {
+        let x = "never_defined_anywhere";
+        let shapes = ["0 && {x}", "1 || {x}", "{x} && 0", "{x} || 1", "0 * {x}", "{x} * 0", "{x} - {x}", "0 & {x}", "{x} ^ {x}", "(1 || {x}) + 1", "low(0 && {x})", "2 + (0 && ({x} + 1))", "!(1 || {x})", "0 && 0 && {x}", "1 && (1 || {x})", "{x} == {x}", "0 << {x}", "0 >> {x}"];
+        let contexts = [("dw", ".dw {e}"), ("ldi", "ldi r16, {e}"), ("set", ".set dead_operand_probe = {e}"), ("if", ".if {e}\nnop\n.endif"), ("db", ".db {e}, 1")];
+        for (si, shape) in shapes.iter().enumerate() {
+            for (cn, c) in contexts.iter() {
+                if !all_mutants && !rng.chance(1, 6) {
+                    continue;
+                }
+                let e = shape.replace("{x}", &spell::case(x, rng));
+                let mut m = p.nodes.clone();
+                m.push(Node::Seg(Seg::Code));
+                for l in c.replace("{e}", &e).split('\n') {
+                    m.push(Node::Raw(l.to_string()));
+                }
+                let src = ir::print_canonical(&m);
+                let out = fw::build_str(&src);
+                ctx.eval(1);
+                ctx.count("mutants:undefined-name-in-operand-that-cannot-change-the-value", 1);
+                if !out.is_err() {
+                    ctx.violation(format!("sym/mutant/undefined-in-dead-operand/{}/shape{}/accepted", cn, si), format!("`{}` names nothing that is defined, yet `{}` builds", x, c.replace("{e}", &e).replace('\n', " / ")), json!({"source": src, "kind": "undefined-in-dead-operand", "mutation": e, "must_fail": true, "observed": out.brief()}));
+                }
+            }
+        }
+    }
     // undefined name in each kind of use
     let mut m = p.nodes.clone();
     let pos = m.len();
